@@ -52,6 +52,7 @@ def run(ctx):
         'read_outcomes_differing_from_code_order_layer': [r['extra']['outcomes_differing_from_implementation_shaped_layer'] for r in reads],
         'truncation_cases': sum(r['extra']['truncation_cases'] for r in reads),
         'random_mutations_exploration': sum(r['extra']['random_mutations'] for r in reads),
+        'long_lived_reader_frames (one Framer, seeded orders, default and SetReuseFrames)': sum(r['actions'].get('long_lived_reader_frames', 0) for r in reads),
         'write_vectors': rw['steps'], 'write_by_method': rw['actions'],
         'rule': 'read: one case per (abstract frame, open-header-block state) edge of the TLC graph at read limits 16384 and 20; '
                 'write: one case per state of H2FrameWrite.tla',
